@@ -120,11 +120,74 @@ def _load_chunk(args):
     return res
 
 
+WORK_GRAMMARS = [
+    # (rules as ABNF text, start rule, unit of input repeated n times, tail)
+    (['expr = term "+" expr / term', "term = number / ident", "number = 1*DIGIT", "ident = 1*( ALPHA / DIGIT )"], "expr", "1+", "1"),
+    (['s = *( "a" / "aa" / "aaa" )'], "s", "a", ""),
+    (['p = "x" / "(" *p ")"'], "p", "(x", "x" + ")" * 64),
+    (['l = item *( "," item )', 'item = word / word "=" word', "word = 1*ALPHA / 1*( ALPHA / DIGIT )"], "l", "ab=c1,", "z"),
+    (['n = [ n1 ] [ n1 ] [ n1 ] "b"', 'n1 = *"a" / 1*"a"'], "n", "a", "b"),
+]
+
+
+def work_probe(P):
+    """Counts matches yielded by Rule.lparse while parsing inputs of doubling size: the growth ratio must stay
+    polynomial (and every Rule.lparse call yields at most len(s)-i+1 matches: one per end)."""
+    orig = P.Rule.lparse
+    counter = {"yield": 0, "calls": 0, "over": None}
+
+    def counted(self, source, start):
+        counter["calls"] += 1
+        n = 0
+        for m in orig(self, source, start):
+            n += 1
+            counter["yield"] += 1
+            yield m
+        if n > len(source) - start + 1 and counter["over"] is None:
+            counter["over"] = (self.name, source, start, n)
+
+    res = []
+    P.Rule.lparse = counted
+    try:
+        for gi, (texts, start, unit, tail) in enumerate(WORK_GRAMMARS):
+            cls = type(f"W{gi}", (P.Rule,), {})
+            for t in texts:
+                cls.create(t)
+            series = []
+            for n in (4, 8, 16):
+                if "(" in unit:
+                    src = unit * n + ")" * n
+                else:
+                    src = unit * n + tail
+                P.ParseCache.clear_caches()
+                counter["yield"] = counter["calls"] = 0
+                try:
+                    cls(start).parse(src, 0)
+                except P.ParseError:
+                    pass
+                series.append((len(src), counter["calls"], counter["yield"]))
+            res.append({"grammar": texts, "series": series, "ratio": [series[k + 1][2] / max(1, series[k][2]) for k in range(2)]})
+    finally:
+        P.Rule.lparse = orig
+    return res, counter["over"]
+
+
 def run(ctx):
     P = lib.import_repo()
     cc.proof_part(ctx)
     found = False
     rep = 0
+    work, over = work_probe(P)
+    for w in work:
+        if max(w["ratio"]) > 16.5:
+            found = True
+            rep += 1
+            ctx.report("work grows faster than a polynomial bound on %s: matches yielded by Rule.lparse for input sizes %s" % (w["grammar"], w["series"]),
+                       {"kind": "work", **w}, key="work:" + lib.digest(w["grammar"]))
+    if over:
+        found = True
+        ctx.report("Rule(%r).lparse yielded %d matches on a source with only %d possible ends" % (over[0], over[3], len(over[1]) - over[2] + 1),
+                   {"kind": "work-dup", "rule": over[0], "source": over[1], "start": over[2], "matches": over[3]}, key="workdup:" + over[0])
     # (a) engine totality
     n_gr, n_str = ctx.budget((400, 10), (5000, 30))
     info, dis = ec.run(ctx, P, "ends", n_gr, n_str, seed=ctx.seed, gen_kwargs=GEN, text_route=True)
@@ -171,7 +234,7 @@ def run(ctx):
                 "look-alikes x every offset; (b) valid rule/rulelist texts corrupted 0-2 times at random positions, loaded via create / load_grammar strict / non-strict; "
                 "non-trivial = (a) >= 2 ends or failure before end of input, (b) text rejected by the reader model",
         "samples": info["samples"][:2] + samples, "engine_stats": st, "load_outcomes": {str(k): v for k, v in kinds.items()},
-        "outcome_class_disagreements": classes_bad, "disagreements_model_vs_impl": len(dis),
+        "outcome_class_disagreements": classes_bad, "disagreements_model_vs_impl": len(dis), "work_probe": work,
     })
     ctx.assumptions.append("the polynomial work bound is not claimed as a theorem; the Python recursion limit is a resource limit outside the model")
     cc.conclude(ctx, len(dis), found)
